@@ -7,7 +7,8 @@
 //! session ends (close frame, RST idle / mid-call, protocol error, ping inactivity, server stop).
 //!
 //! Line protocol (model side: lean/JrpcVerif/Driver/ConnFamily.lean):
-//!   case <n> conn max=<m> http=<0|1> ws=<0|1> obs=<0|1> path=<server|tower|towerset>
+//!   case <n> conn max=<m> http=<0|1> ws=<0|1> obs=<0|1> path=<server|tower|towerset|towermw|towerclone>
+//!     (server_env::Assembly: where the limit is configured and which builder setters run after it)
 //!   cg harrive <c> <new|reuse> | cg hdone <c> | cg habort <c> <fin|rst>
 //!   cg wstart <c> <0|1> | cg wdone <c> | cg wfail <c> <drop|reset>
 //!   cg wclose <c> <close|closecall|halfcall|reset|resetcall|proto|ping|pingcall|stop> | cg end
@@ -572,7 +573,7 @@ fn pick_cfg(rng: &mut Rng) -> (u32, bool, bool, Assembly) {
 		1 => (false, true),
 		_ => (true, true),
 	};
-	let asm = *rng.pick(&[Assembly::Server, Assembly::Server, Assembly::Tower, Assembly::TowerSet]);
+	let asm = *rng.pick(&[Assembly::Server, Assembly::Server, Assembly::Tower, Assembly::TowerSet, Assembly::TowerMw, Assembly::TowerClone]);
 	(max, http, ws, asm)
 }
 
@@ -626,7 +627,7 @@ const EXIT_PATHS: [&str; 15] = [
 /// sessions held open meanwhile; afterwards the limit must still be reachable and enforced
 fn gen_cycle_case(rng: &mut Rng, n: u64, path: &str, cycles: u64) -> Vec<String> {
 	let max = rng.range(1, 3) as u32;
-	let asm = *rng.pick(&[Assembly::Server, Assembly::Tower, Assembly::TowerSet]);
+	let asm = *rng.pick(&[Assembly::Server, Assembly::Tower, Assembly::TowerSet, Assembly::TowerMw, Assembly::TowerClone]);
 	let (http, ws) = if path == "denied" { (true, false) } else { (true, true) };
 	let mut lines = vec![header(n, max, http, ws, asm)];
 	let mut c = 1u64;
@@ -678,7 +679,7 @@ fn gen_cycle_case(rng: &mut Rng, n: u64, path: &str, cycles: u64) -> Vec<String>
 /// time out on their own), HTTP requests may be in flight throughout.
 fn gen_ping_case(rng: &mut Rng, n: u64) -> Vec<String> {
 	let max = rng.range(1, 3) as u32;
-	let asm = *rng.pick(&[Assembly::Server, Assembly::Tower, Assembly::TowerSet]);
+	let asm = *rng.pick(&[Assembly::Server, Assembly::Tower, Assembly::TowerSet, Assembly::TowerMw, Assembly::TowerClone]);
 	let mut lines = vec![header(n, max, true, true, asm)];
 	let mut c = 1u64;
 	let mut held = vec![];
